@@ -9,6 +9,7 @@ From FT Require Import Base.Dict Model.Edit Model.EditExec Proofs.EditInv Proofs
 From FT Require Gen.History_gen Proofs.HistoryGen Props.C02.
 From FT Require Gen.UserActions_gen Proofs.UserActionsTie.
 From FT Require Proofs.CoreTieBundle.
+From FT Require Model.ToggleExec Proofs.EditSessionsToggle Proofs.EditRefreshCount.
 Import ListNotations.
 Open Scope Z_scope.
 
@@ -110,6 +111,24 @@ Qed.
 Theorem C20_core_is_generated : FT.Proofs.CoreTieBundle.core_tie_statement.
 Proof. exact FT.Proofs.CoreTieBundle.core_tie. Qed.
 
+(* ---- exact count (Proofs/EditRefreshCount.v): over every session - any calls, any outcomes - the log grows by
+        exactly one entry per successful top-level edit (code 0) and per undo / redo that returns True (code 1), and
+        by nothing else: refused edits, undo / redo at the ends of the timeline and queries add none.  [successes]
+        counts those calls along the session. ---- *)
+Theorem C20_run_exact : forall ops st, exists ext,
+  rlog (run st ops) = rlog st ++ ext /\ length ext = FT.Proofs.EditRefreshCount.successes st ops.
+Proof. exact FT.Proofs.EditRefreshCount.refresh_count. Qed.
+(* feature switching (enable / disable, with or without recomputation) emits nothing and leaves both history
+   stacks alone, whatever it returns *)
+Theorem C20_switch_silent : forall st o, FT.Proofs.EditSessionsToggle.is_switch o = true ->
+  let s := fst (FT.Model.ToggleExec.step2 st o) in
+  rlog s = rlog st /\ undo_stack s = undo_stack st /\ redo_stack s = redo_stack st.
+Proof. exact FT.Proofs.EditRefreshCount.switch_silent. Qed.
+Example C20_exact_nonvacuous :
+  FT.Proofs.EditRefreshCount.successes ex_state [OAddEdge 1 2 false; OAddEdge 2 1 false; OUndo; OUndo; ORedo; ONextIds] = 3%nat /\
+  length (rlog (run ex_state [OAddEdge 1 2 false; OAddEdge 2 1 false; OUndo; OUndo; ORedo; ONextIds])) = 3%nat.
+Proof. vm_compute. split; reflexivity. Qed.
+
 Example C20_nonvacuous :
   let '(s1, (c1, _)) := step ex_state (OAddEdge 1 2 false) in
   let '(s2, (c2, _)) := step s1 (OAddEdge 2 1 false) in
@@ -127,3 +146,5 @@ Print Assumptions C20_nested_silent.
 Print Assumptions C20_history_is_generated.
 Print Assumptions C20_user_actions_are_generated.
 Print Assumptions C20_core_is_generated.
+Print Assumptions C20_run_exact.
+Print Assumptions C20_switch_silent.
